@@ -105,3 +105,21 @@ def soak_size(modnames, default=1100, cap=6000):
     literal capacity in these modules overflows: a bit more than the largest plausible capacity literal, within a budget."""
     lits = [v for v in harvest_int_literals(modnames, 64, cap) if v & (v - 1) == 0 or v % 100 == 0 or v % 128 == 0]
     return max([default] + [int(v * 1.07) + 8 for v in lits if v <= cap])
+
+
+def soak_then_reprobe(rec, label, probes, soak_iter, n):
+    """Bounded tables (rings, LRU caches) only misbehave once they are full: run the probes, push n DISTINCT valid arguments
+    through the function(s) under observation, run the probes again.  Every call is judged by the installed monitors / the
+    probes' own oracles; this helper adds no oracle."""
+    rec.case("soak:" + label, None, nontrivial=False)
+    for p in probes:
+        p()
+    k = 0
+    for thunk in soak_iter:
+        thunk()
+        k += 1
+        if k >= n:
+            break
+    rec.event("soak:%s:distinct-arguments" % label, k)
+    for p in probes:
+        p()
